@@ -76,10 +76,18 @@ class Report:
         self.extra = {}
 
     # -- direct solver queries (Engine Z) ---------------------------------------------------
-    def zquery(self, family, name, result, expect, solver_time, detail=None, solver='z3'):
+    def zquery(self, family, name, result, expect, solver_time, detail=None, solver='z3', cross=False,
+               handled=False):
         """result/expect in {'sat','unsat','unknown'}; a mismatch with a model is a candidate
-        violation to be replayed by the caller (who then calls violation())."""
+        violation to be replayed by the caller (who then calls violation() and passes handled=True).
+        cross=True marks the once-per-encoding second-solver run: no answer from it is recorded but is
+        not a failure, a *different* answer is inconclusive."""
+        if cross and result in ('timeout', 'unknown'):
+            self.notes.append('%s/%s: second solver gave no answer (%s)' % (family, name, result))
+            expect = result
         ok = (result == expect)
+        if not ok and not handled and result not in ('unknown',) and not str(result).startswith('error'):
+            self.inconclusive.append('%s/%s: solver answered %s, expected %s' % (family, name, result, expect))
         self.queries.append({'family': family, 'name': name, 'verdict': result, 'expect': expect,
                              'ok': ok, 'wall': round(solver_time, 3), 'paths': 1,
                              'solver': {'checks': 1, 'time': solver_time,
